@@ -1,9 +1,11 @@
 package checks
 
 import (
+	"bufio"
 	"errors"
 	"fmt"
 	"io"
+	"net"
 	"net/http"
 	"net/http/httptest"
 	"strings"
@@ -66,9 +68,9 @@ func (w recWRF) ReadFrom(src io.Reader) (int64, error) {
 
 // operations: one letter each
 // 0..7 SetStatus(code) ; h SetHeader ; e Write("") ; w Write("ab") ; f Flush ; E http.Error(418) ; R Redirect(302) ; T Text(201,"hi") ; S Stream(203, reader without WriteTo)
-var c08Status = map[byte]int{'0': -1, '1': 0, '2': 200, '3': 304, '4': 201, '5': 404, '6': 500, '7': 204}
+var c08Status = map[byte]int{'0': -1, '1': 0, '2': 200, '3': 304, '4': 201, '5': 404, '6': 500, '7': 204, '8': 103, '9': 100}
 
-const c08Ops = "01234567hewfERTS"
+const c08Ops = "0123456789hewfERTS"
 
 func c08Apply(c *rux.Context, op byte) {
 	switch op {
@@ -208,6 +210,16 @@ type c08Run_ struct {
 	K       int          `json:"k,omitempty"`             // K>0: ops[K:] run in the router's OnError hook (the main handler records an error)
 	RF      bool         `json:"reader_from,omitempty"`   // the underlying writer also implements io.ReaderFrom
 	Nested  bool         `json:"nested_router,omitempty"` // the main handler hands the request to a second rux router, whose handler performs the main operations
+	Hj      bool         `json:"after_hijacked_request,omitempty"` // the router served a request whose handler hijacked its connection right before
+}
+
+// recWHJ is a recording writer that can be hijacked
+type recWHJ struct{ *recW }
+
+func (w recWHJ) Hijack() (net.Conn, *bufio.ReadWriter, error) {
+	a, b := net.Pipe()
+	_ = b.Close()
+	return a, nil, nil
 }
 
 // one router per shard; the handlers read the run to perform from cur
@@ -222,6 +234,11 @@ type c08Harness struct {
 func newC08Harness() *c08Harness {
 	h := &c08Harness{r: rux.New(), req: httptest.NewRequest("GET", "/x", nil)}
 	h.r.GET("/y", func(c *rux.Context) { _, _ = c.Resp.Write([]byte("cd")) })
+	h.r.GET("/hj", func(c *rux.Context) {
+		if conn, _, err := c.Resp.(http.Hijacker).Hijack(); err == nil && conn != nil {
+			_ = conn.Close()
+		}
+	})
 	h.r.Use(func(c *rux.Context) {
 		if c.Req.URL.Path != "/x" {
 			return
@@ -288,6 +305,9 @@ func (h *c08Harness) exec(run *c08Run_) (w *recW, length, status int, sampled bo
 			io.ReaderFrom
 		}{w, w, recWRF{w}}
 	}
+	if run.Hj {
+		_ = try(func() { h.r.ServeHTTP(recWHJ{&recW{h: http.Header{}}}, httptest.NewRequest("GET", "/hj", nil)) })
+	}
 	pv = try(func() { h.r.ServeHTTP(under, h.req) })
 	return w, h.length, h.status, h.sampled, pv
 }
@@ -309,7 +329,7 @@ func c08Check(h *c08Harness, run c08Run_, st *fw.Stats) *fw.Viol {
 	}
 	w, length, status, sampled, pv := h.exec(&run)
 	desc := func() string {
-		return fmt.Sprintf("ops %q (middleware before Next: %q, main handler: %q, middleware after Next: %q), write answers %v [0-7=SetStatus(-1,0,200,304,201,404,500,204) h=SetHeader e=Write(\"\") w=Write(\"ab\") f=Flush E=http.Error(418) R=Redirect(302) T=Text(201) S=Stream(203)]",
+		return fmt.Sprintf("ops %q (middleware before Next: %q, main handler: %q, middleware after Next: %q), write answers %v [0-9=SetStatus(-1,0,200,304,201,404,500,204,103,100) h=SetHeader e=Write(\"\") w=Write(\"ab\") f=Flush E=http.Error(418) R=Redirect(302) T=Text(201) S=Stream(203)]",
 			run.Ops, run.Ops[:run.I], run.Ops[run.I:run.J]+map[bool]string{true: " then HandleContext to a route writing \"cd\"", false: ""}[run.Redisp], c08Tail(run), fmtAnswers(run.Answers))
 	}
 	if pv != nil && !m.panicked {
@@ -562,6 +582,8 @@ func c08RunCase(c c08Case, st *fw.Stats) []fw.Viol {
 			// ... and with the main handler re-dispatching at its end (no operations after Next)
 			try1(c08Run_{Ops: ops, I: 0, J: d, Redisp: true})
 			try1(c08Run_{Ops: ops, I: d / 2, J: d, Redisp: true})
+			// ... right after the router served a request whose handler hijacked its connection
+			try1(c08Run_{Ops: ops, I: 0, J: d, Hj: true})
 			// ... with the main handler's operations performed by a second router mounted inside it
 			try1(c08Run_{Ops: ops, I: 0, J: d, Nested: true})
 			try1(c08Run_{Ops: ops, I: d / 2, J: d, Nested: true})
@@ -641,7 +663,7 @@ func c08Gen(tier string, emit func(c08Case)) {
 var c08Spec = fw.Spec[c08Case]{
 	ID:    "C08",
 	Level: "model_checking",
-	Rule: "depth-bounded exhaustive search: ALL operation sequences of length <=4 (thorough 6) over 16 operations {SetStatus(-1,0,200,304,201,404,500,204), SetHeader, Write(\"\"), Write(\"ab\"), Flush, http.Error(418), Redirect(302), Text(201), Stream(203)} x every split of the sequence over middleware-before-Next / main handler / middleware-after-Next (also with the tail run by the OnError hook, with a HandleContext re-dispatch, and on an underlying writer implementing io.ReaderFrom) x every assignment of <=2 non-default answers (short write, error) to the underlying writes (every split up to length 3 (4), 4 representative splits plus OnError / re-dispatch / ReaderFrom variants at length 4 (5), <=1 fault at length 6 in the thorough tier); " +
+	Rule: "depth-bounded exhaustive search: ALL operation sequences of length <=4 (thorough 6) over 18 operations {SetStatus(-1,0,200,304,201,404,500,204,103,100), SetHeader, Write(\"\"), Write(\"ab\"), Flush, http.Error(418), Redirect(302), Text(201), Stream(203)} x every split of the sequence over middleware-before-Next / main handler / middleware-after-Next (also with the tail run by the OnError hook, with a HandleContext re-dispatch, right after a request that hijacked its connection, and on an underlying writer implementing io.ReaderFrom) x every assignment of <=2 non-default answers (short write, error) to the underlying writes (every split up to length 3 (4), 4 representative splits plus OnError / re-dispatch / ReaderFrom variants at length 4 (5), <=1 fault at length 6 in the thorough tier); " +
 		"plus the requests the router answers by itself (default and silent custom 404 / 405 responders, the body-less OPTIONS reply, do-nothing handlers) on all 384 combinations of 9 router settings; " +
 		"oracle = 20-line writer specification compared with the complete event log of a recording ResponseWriter+Flusher; non-trivial = sequence containing a write, flush or helper",
 	Assume: []string{"Text (WriteBytes) is documented to panic when the underlying write fails; after such a panic only the log so far is compared", "Length() is compared once a header was committed"},
